@@ -2,7 +2,7 @@
    LeafVersion) and of the public-key half of src/schnorr.rs (TapTweak for UntweakedPublicKey).
    Hand-written, executable; no proofs here.  Hash functions and every secp256k1 operation are Section variables.
    The constants and tag strings come from Gen/Tables.v (regenerated from the Rust text on every run). *)
-From Coq Require Import List Arith NArith Bool.
+From Coq Require Import List Arith NArith ZArith Bool.
 From Coq.Strings Require Import Byte.
 From EV Require Import Base.Bytes Base.Codec Gen.Tables.
 Import ListNotations.
@@ -239,3 +239,38 @@ Definition combine_tot (a b : node) : node :=
 Fixpoint node_of (t : tree) : node :=
   match t with Leaf s v => new_leaf s v | Hidden h => new_hidden h | Node a b => combine_tot (node_of b) (node_of a) end.
 End TAP.
+
+(* ---- src/schnorr.rs, `impl TapTweak for UntweakedKeypair`, together with the two libsecp256k1 functions it and the public-key
+   path rest on, written over an ABSTRACT group (points `pt`, generator multiples `mulG`), so that their agreement is a theorem
+   about group laws rather than an assumption:
+     secp256k1_xonly_pubkey_tweak_add:  lift the x-only key to the even-Y point, add t*G, fail on infinity, return (x, parity)
+     secp256k1_keypair_xonly_tweak_add: negate the secret if its public key has odd Y, add t mod n, fail on zero            ---- *)
+Section SCHNORR.
+Variable Htweak : bytes -> bytes.
+Variable scalar_ok : bytes -> bool.
+Variable pt : Type.
+Variable padd : pt -> pt -> pt.
+Variable pneg : pt -> pt.
+Variable mulG : Z -> pt.
+Variable xonly_of : pt -> option (bytes * bool).     (* None: the point at infinity *)
+Variable lift_x : bytes -> option pt.                 (* the point with that x and even Y *)
+Definition scalar_of (t : bytes) : Z := Z.of_N (be_val t).
+(* XOnlyPublicKey::add_tweak *)
+Definition xonly_tweak (P t : bytes) : option (bytes * bool) :=
+  match lift_x P with Some p => xonly_of (padd p (mulG (scalar_of t))) | None => None end.
+(* Keypair::x_only_public_key / Keypair::add_xonly_tweak; a key pair is its secret scalar *)
+Definition kp_xonly (sk : Z) : option (bytes * bool) := xonly_of (mulG sk).
+Definition kp_add_xonly_tweak (sk : Z) (t : bytes) : option Z :=
+  match kp_xonly sk with
+  | Some (_, par) => let sk' := ((if par then - sk else sk) + scalar_of t)%Z in
+                     match xonly_of (mulG sk') with Some _ => Some sk' | None => None end
+  | None => None end.
+(* UntweakedKeypair::tap_tweak *)
+Definition keypair_tap_tweak (sk : Z) (root : option bytes) : outcome Z :=
+  match kp_xonly sk with
+  | None => Panic TweakFailed        (* not a key pair *)
+  | Some (P, _) =>
+      let t := tap_tweak_hash Htweak P root in
+      if scalar_ok t then match kp_add_xonly_tweak sk t with Some sk' => Val sk' | None => Panic TweakFailed end else Panic ScalarRange
+  end.
+End SCHNORR.
